@@ -20,6 +20,9 @@ package dbft
 // Clock readings are used only as differences (Sub), as the zero sentinel (IsZero) or turned into a payload / block
 // timestamp in nanoseconds (UnixNano, at the listed sites); no other view of absolute time (Unix, Day, Format, ...) is used.
 //@ forbid [C14] timeapi : (time.Time).Sub, (time.Time).IsZero, (time.Time).UnixNano
+// the two instants the node remembers come from the injected clock, at these places only
+//@ writers [C14] Context.lastBlockTime : (*DBFT).checkPrepare
+//@ writers [C14,C16] Context.prepareSentTime : (*DBFT).sendPrepareRequest, (*Context).reset
 //@ callers [C14] (time.Time).UnixNano : (*Context).getTimestamp, (*DBFT).checkChangeView, (*DBFT).sendChangeView, (*DBFT).sendRecoveryRequest
 
 // ---- interface getters: functions of the receiver (A2: payloads, blocks, keys are immutable) ----
@@ -339,19 +342,19 @@ package dbft
 //@ bundle UNDECIDED
 //@   requires [C05] @undecided !self.blockProcessed
 //@ bundle INV
-//@   ensures [C03] @said said()
+//@   ensures [C03,C01] @said said()
 //@   ensures [C11] @wf wf()
 //@   ensures [C11,C02,C04] @slot slot()
 //@   ensures [C04] @prep prep()
 //@   ensures [C02,C15] @prop prop()
 //@   ensures [C02,C01] @verc verc()
-//@   ensures [C02] @tip tip()
+//@   ensures [C02,C01] @tip tip()
 //@   ensures [C02] @complete complete()
 
 //@ bundle U
 //@   requires @wf wf() && slot()
-//@   requires [C03] @said said()
-//@   ensures  [C03] @lock implies(old(locked()), self.ViewNumber == old(self.ViewNumber) && implies(old(gCommit) != nil, gCommit == old(gCommit)) && implies(old(gPreCommit) != nil, gPreCommit == old(gPreCommit)))
+//@   requires [C03,C01] @said said()
+//@   ensures  [C03,C01] @lock implies(old(locked()), self.ViewNumber == old(self.ViewNumber) && implies(old(gCommit) != nil, gCommit == old(gCommit)) && implies(old(gPreCommit) != nil, gPreCommit == old(gPreCommit)))
 //@   ensures  [C03] @sameViewSameWord implies(self.ViewNumber == old(self.ViewNumber) && old(gPrep) != nil, gPrep == old(gPrep))
 //@   requires [C04] @prep prep()
 //@   requires [C02,C15] @prop prop()
@@ -380,7 +383,7 @@ package dbft
 //@   ensures [C05,C07] @handedOver handedOver()
 //@   ensures [C11] @seenMono seenMono()
 //@   ensures [C12] @txKept implies(self.ViewNumber == old(self.ViewNumber), forallOf(Transaction, t, implies(old(has(self.Transactions, t.Hash())), has(self.Transactions, t.Hash()))))
-//@   ensures  [C03] @lock implies(old(locked()), self.ViewNumber == old(self.ViewNumber) && implies(old(gCommit) != nil, gCommit == old(gCommit)) && implies(old(gPreCommit) != nil, gPreCommit == old(gPreCommit)))
+//@   ensures  [C03,C01] @lock implies(old(locked()), self.ViewNumber == old(self.ViewNumber) && implies(old(gCommit) != nil, gCommit == old(gCommit)) && implies(old(gPreCommit) != nil, gPreCommit == old(gPreCommit)))
 //@   ensures  [C03] @sameViewSameWord implies(self.ViewNumber == old(self.ViewNumber) && old(gPrep) != nil, gPrep == old(gPrep))
 //@   ensures sameHeight() && self.ViewNumber >= old(self.ViewNumber) && heapMono() && timerKept()
 
@@ -474,6 +477,7 @@ package dbft
 //@   requires ts + self.TimestampIncrement <= 18446744073709551615
 //@   use INV
 //@   ensures [C05,C10,C11] @entersView self.ViewNumber == view
+//@   ensures [C06,C11] @primary self.PrimaryIndex == emod(self.BlockIndex - view, NN())
 // B6: at a new height the tables that feed recovery messages and the failed-node count start empty as well
 //@   ensures [C05] @historyCleared implies(view == 0, forall(i, 0, NN(), self.LastChangeViewPayloads[i] == nil && (self.LastSeenMessage[i] == nil || i == self.MyIndex)))
 //@   ensures [C05,C04,C12,C02,C01,C11] @cleanProposal cleanProposal()
@@ -483,13 +487,13 @@ package dbft
 //@   ensures [C16,C05] @unsubscribed !self.txSubscriptionOn
 //@   ensures [C15,C05] @base self.lastBlockTimestamp == ts
 //@   ensures [C11] @seenMono implies(view > 0, seenMono())
-//@   ensures [C05,C07,C03,C11] @keptWithinHeight implies(view > 0, sameHeight() && unchanged(self.CommitPayloads, self.PreCommitPayloads, self.preBlockProcessed, self.blockProcessed))
+//@   ensures [C05,C07,C03,C01,C11] @keptWithinHeight implies(view > 0, sameHeight() && unchanged(self.CommitPayloads, self.PreCommitPayloads, self.preBlockProcessed, self.blockProcessed))
 //@   ensures [C05,C04,C02,C03,C11] @tablesCleared forall(i, 0, NN(), self.PreparationPayloads[i] == nil && self.ChangeViewPayloads[i] == nil) && implies(view == 0, forall(i, 0, NN(), self.CommitPayloads[i] == nil && self.PreCommitPayloads[i] == nil))
 //@   ghost gPrep = nil
 //@   ghost gCommit = ite(view == 0, nil, gCommit)
 //@   ghost gPreCommit = ite(view == 0, nil, gPreCommit)
 //@   ghost gMaxOwnView = ite(view == 0, 0, gMaxOwnView)
-//@   requires [C03] @lock implies(view > 0, !locked() && said())
+//@   requires [C03,C01] @lock implies(view > 0, !locked() && said())
 //@   modifies Context.*, heap HeightView.*, gTipHeight, gTipHash, gPrep, gCommit, gPreCommit, gMaxOwnView, gValidators, gTimePerBlock, gMaxTimePerBlock
 //@   loop 1: invariant len(c.LastChangeViewPayloads) == NN() && len(c.ChangeViewPayloads) == NN() && unchanged(c.ChangeViewPayloads, c.Validators)
 //@   loop 1: invariant 0 <= idx && idx <= NN() && forall(j, 0, idx, implies(c.LastChangeViewPayloads[j] != nil, c.LastChangeViewPayloads[j].Type() == ChangeViewType))
@@ -601,6 +605,7 @@ package dbft
 //@   ensures [C16] @forcedProposes implies(force || self.Config.MaxTimePerBlock == nil, gBroadcasts > old(gBroadcasts))
 // a proposal goes out only if it was forced, or no maximum block time is configured, or the pool just read was not empty
 //@   at call d.broadcast: assert [C16] @emptyNotProposed force || self.Config.MaxTimePerBlock == nil || len(gPool) > 0
+//@   at call d.checkPrepare: assert [C16] @unsubscribedOnceProposed !self.txSubscriptionOn
 //@   ensures [C16] @emptyWaitsMax implies(gBroadcasts == old(gBroadcasts), self.Config.MaxTimePerBlock != nil && !force && self.txSubscriptionOn
 //@        && gTimerD == self.maxTimePerBlock - self.timePerBlock && gTimerH == self.BlockIndex && gTimerV == self.ViewNumber && self.ViewNumber == old(self.ViewNumber))
 //@   requires [C13] @silent notWatchOnly()
@@ -608,6 +613,7 @@ package dbft
 //@   wraps * unless aview()
 //@ func (*DBFT).sendChangeView
 //@   use U
+//@   at call d.makeChangeView: assert [C14] @stamp arg0 == gClock
 //@   use UNDECIDED
 //@   ensures [C12] @speaks implies(notWatchOnly(), gBroadcasts > old(gBroadcasts))
 // asked for any reason but a timeout, the node does ask to leave the view (it has its own request for a higher view on
@@ -660,9 +666,12 @@ package dbft
 //@   ensures [C02,C01] @verc verc()
 //@   requires [C03] @said said()
 //@   ensures [C03] @said said()
-//@   ensures [C03] @lock implies(old(gCommit) != nil, gCommit == old(gCommit))
+//@   ensures [C03,C01] @lock implies(old(gCommit) != nil, gCommit == old(gCommit))
 //@   ensures gBroadcasts >= old(gBroadcasts)
 //@   modifies Context.CommitPayloads, Context.header, gBroadcasts, gLastBcast, gCommit, gMaxOwnView
+//@ func (*Context).makeChangeView
+//@   inline
+//@   at call c.Config.NewChangeView: assert [C14] @stamp arg2 == ts
 //@ func (*Context).makeCommit
 //@   inline
 //@   at call b.Sign: assert [C07] @afterPreBlock implies(amev(), c.preBlockProcessed)
@@ -675,6 +684,8 @@ package dbft
 //@ callers [C13] PreBlock.SetData : (*Context).makePreCommit
 //@ func (*DBFT).sendRecoveryRequest
 //@   requires wf() && slot()
+// C14: the timestamps put into requests are the reading of the injected clock itself (nothing is done to it on the way)
+//@   at call d.NewRecoveryRequest: assert [C14] @stamp arg0 == gClock
 //@   ensures [C11] @wf wf()
 //@   requires [C13] @silent notWatchOnly()
 //@   requires [C03] @said said()
@@ -720,15 +731,16 @@ package dbft
 //@   requires canMakeHeader()
 //@   loop 1: invariant 0 <= count && count <= idx && idx <= NN()
 //@   loop 1: invariant [C02,C01] @counts count == count(j, 0, idx, curC(j))
-//@   at call d.ProcessBlock: assert [C05] @once !self.blockProcessed
+//@   at call d.ProcessBlock: assert [C05,C01] @once !self.blockProcessed
 //@   at call d.ProcessBlock: assert [C02] @complete arg0 == self.block && gBlockTxSet == arg0
 //@   at call d.ProcessBlock: assert [C02,C01] @certificate commitCount() >= specM(NN()) && hasAllTx() && arg0 == self.header && arg0 != nil && verc() && prop() && tip()
-//@ callers [C02,C05] Config.ProcessBlock : (*DBFT).checkCommit
+//@ callers [C02,C05,C01] Config.ProcessBlock : (*DBFT).checkCommit
 //@ writers [C05] Context.blockProcessed : (*DBFT).checkCommit, (*Context).reset
 //@ func (*DBFT).checkChangeView
 //@   use U
+//@   at call d.makeChangeView: assert [C14] @stamp arg0 == gClock
 //@   use UNDECIDED
-//@   requires [C03] @lock !locked()
+//@   requires [C03,C01] @lock !locked()
 //@   ensures [C12] @staysOrMoves self.ViewNumber > old(self.ViewNumber) || (self.ViewNumber == old(self.ViewNumber) && unchanged(self.ChangeViewPayloads))
 //@   loop 1: invariant 0 <= count && count <= idx && idx <= NN()
 //@   loop 1: invariant [C04] @counts count == count(j, 0, idx, self.ChangeViewPayloads[j] != nil && self.ChangeViewPayloads[j].GetChangeView().NewViewNumber() >= view)
@@ -763,7 +775,7 @@ package dbft
 //@   requires base() && implies(view > 0, wf() && slot() && tip() && view > self.ViewNumber)
 //@   requires [C04] @viewEvidence implies(view > 0, cvCount(view) >= specM(NN()))
 //@   requires [C15] @sameBase implies(view > 0, ts == self.lastBlockTimestamp)
-//@   requires [C03] @lock implies(view > 0, !locked() && said())
+//@   requires [C03,C01] @lock implies(view > 0, !locked() && said())
 //@   requires ts + self.TimestampIncrement <= 18446744073709551615
 //@   use INV
 //@   ensures self.ViewNumber >= view
@@ -836,6 +848,7 @@ package dbft
 //@   ensures [C05] @quiescent implies(old(self.blockProcessed), quiet() && gBroadcasts == old(gBroadcasts))
 //@ func (*DBFT).OnNewTransaction
 //@   use U
+//@   at call d.onTimeout: assert [C16] @forced arg2 == true
 //@   ensures [C16] @ignoredUnlessSubscribed implies(!old(self.txSubscriptionOn), quiet() && gBroadcasts == old(gBroadcasts))
 //@   ensures [C05] @quiescent implies(old(self.blockProcessed), quiet() && gBroadcasts == old(gBroadcasts))
 //@ func (*DBFT).onTimeout
@@ -844,6 +857,8 @@ package dbft
 //@   ensures [C05] @quiescent implies(old(self.blockProcessed), quiet() && gBroadcasts == old(gBroadcasts))
 //@   at call d.sendChangeView: assert [C16] @noIdleViewChange implies(self.ViewNumber == 0 && self.Config.MaxTimePerBlock != nil && self.MyIndex >= 0 && self.MyIndex != self.PrimaryIndex
 //@        && !force && !self.txSubscriptionOn, len(gPool) != 0)
+// the proposal is forced exactly when it is due: at a view above 0, after the wait for transactions, or on the caller's demand
+//@   at call d.sendPrepareRequest: assert [C16] @forceOnlyWhenDue arg0 == (self.ViewNumber != 0 || self.txSubscriptionOn || force)
 //@   at call d.subscribeForTransactions: assert [C16] @idleBackupSubscribes self.ViewNumber == 0 && self.MyIndex != self.PrimaryIndex && !force && !self.txSubscriptionOn && len(gPool) == 0
 //@   ensures [C10] @rearm implies(aview() && height == old(self.BlockIndex) && view == old(self.ViewNumber) && !old(self.blockProcessed) && notWatchOnly(), gTimerArms > old(gTimerArms) || self.blockProcessed)
 //@ func (*DBFT).OnReceive
